@@ -1,0 +1,18 @@
+//go:build verif
+
+package gohbase
+
+// Contracts for the deductive verifier in /verif (gowp). This file contains comments only; the
+// build tag `verif` adds no code. Syntax: /verif/DESIGN.md section 2.2.
+
+//@ func gohbase.sleepAndIncreaseBackoff
+//@   requires sleepAndIncreaseBackoffOverride == nil
+//@   requires backoff >= 0
+//@   modifies X.slept, X.ctxdone
+//@   ensures[C17] r1 == nil && backoff == 0 ==> r0 == 16000000 && ghost("slept") == old(ghost("slept"))
+//@   ensures[C17] r1 == nil && 0 < backoff && backoff < 5000000000 ==> r0 == 2*backoff
+//@   ensures[C17] r1 == nil && 5000000000 <= backoff && backoff < 30000000000 ==> r0 == backoff + 5000000000
+//@   ensures[C17] r1 == nil && 30000000000 <= backoff ==> r0 == backoff
+//@   ensures[C17] r1 == nil && backoff > 0 ==> ghost("slept") == old(ghost("slept")) + backoff
+//@   ensures[C17] r1 != nil ==> r0 == 0 && ghostat("ctxdone", ctx) == 1
+//@   panics never[C17]
